@@ -87,7 +87,7 @@ fn resolve_some_name_ptr_mut<T: InterpreterTrait>(
         }
         Path::Property(parent_name_ptr, property_name) => {
             let parent_variant = resolve_some_name_ptr_mut(interpreter, *parent_name_ptr)?;
-            Ok(resolve_property_mut(parent_variant, &property_name))
+            resolve_property_mut(parent_variant, &property_name)
         }
     }
 }
@@ -100,15 +100,20 @@ fn resolve_array_mut(v: &mut Variant, indices: Vec<Variant>) -> Result<&mut Vari
                 .get_element_mut(&int_indices)
                 .map_err(RuntimeError::from)
         }
-        _ => panic!("Expected array, found {:?}", v),
+        // the DIM that allocates the array has not been executed (e.g. a GOTO jumped over it)
+        _ => Err(RuntimeError::SubscriptOutOfRange),
     }
 }
 
-fn resolve_property_mut<'a>(v: &'a mut Variant, property_name: &BareName) -> &'a mut Variant {
+fn resolve_property_mut<'a>(
+    v: &'a mut Variant,
+    property_name: &BareName,
+) -> Result<&'a mut Variant, RuntimeError> {
     match v {
-        Variant::VUserDefined(boxed_user_defined_value) => boxed_user_defined_value
+        Variant::VUserDefined(boxed_user_defined_value) => Ok(boxed_user_defined_value
             .get_mut(property_name)
-            .expect("Property not defined, linter should have caught this"),
-        _ => panic!("Expected user defined type, found {:?}", v),
+            .expect("Property not defined, linter should have caught this")),
+        // the DIM that allocates the record has not been executed (e.g. a GOTO jumped over it)
+        _ => Err(RuntimeError::ElementNotDefined),
     }
 }
